@@ -73,6 +73,12 @@ def each_node(rng, arg, depth, nested=False):
     bps = rng.shuffle(["it", "kk", "vv"])[:rng.pick([0, 0, 1, 2])]
     b = body(rng, bps, depth, None)
     els = [{"t": "text", "s": "<none>"}] if rng.chance(0.5) else None
+    if els is not None and rng.chance(0.6):
+        # the else branch is rendered in the scope AROUND the each (no scope is pushed for it): `this`, a field and the iteration
+        # variables of an enclosing each mean there what they mean in front of the block
+        els = [{"t": "text", "s": "<none "}, {"t": "expr", "arg": {"a": "local", "ups": 0, "name": rng.pick(["index", "key", "last"])}, "html": 1}, {"t": "text", "s": ","},
+               {"t": "expr", "arg": {"a": "path", "ups": 0, "root": False, "segs": []}, "html": 0}, {"t": "text", "s": ","},
+               {"t": "expr", "arg": {"a": "path", "ups": 0, "root": False, "segs": [rng.pick(["s", "k", "a", "n"])]}, "html": 0}, {"t": "text", "s": ">"}]
     return {"t": "each", "arg": arg, "body": b, "else": els, "bp": bps}
 
 
@@ -130,6 +136,19 @@ def generate(rng, n, tier="quick"):
         case["id"] = "%s-%06d" % (ID, i)
         oc = ref_outcome({"main": ast}, "main", data, False, lambda s: s)
         out.append((case, {"prov": prov, "oracle": list(oc), "len": len(c)}))
+    # directed: the else branch of an each over an empty object / empty array / null / scalar / missing field, inside an enclosing each: it is
+    # rendered in the enclosing scope (name and @index / @key / @first of the OUTER iteration; `../` steps out of the outer one)
+    for k, (cells, shown) in enumerate([({}, None), ([], None), (None, None), (5, None), ("MISSING", None), ({"x": 1, "y": 2}, "1,2,"), ([7], "7,")]):
+        for outer_kind in ("arr", "obj"):
+            rows_ = [{"name": "a", "cells": {"x": 1}}, {"name": "b", "cells": cells}]
+            if cells == "MISSING":
+                del rows_[1]["cells"]
+            d_ = {"top": "T", "rows": rows_ if outer_kind == "arr" else {"r0": rows_[0], "r1": rows_[1]}}
+            tpl_ = "{{#each rows}}{{#each cells}}{{this}},{{else}}[{{name}}:{{@index}}:{{@key}}:{{@first}}:{{../top}}:{{this.name}}]{{/each}};{{/each}}"
+            second = shown if shown is not None else ("[b:1::false:T:b]" if outer_kind == "arr" else "[b:1:r1:false:T:b]")
+            case = session({"escape": "none"}, [("main", tpl_)], {"api": "render", "name": "main"}, d_)
+            case["id"] = "%s-else%02d%s" % (ID, k, outer_kind)
+            out.append((case, {"prov": "else-scope", "oracle": ["must", "1,;" + second + ";"], "len": 2}))
     # directed: the collection spelled with a `this` that is not at the start of the path – behind @root, behind a name, behind
     # ../ or this. – designates what the path designates without it (a `this` segment never names a field)
     rows = [({"a": 1, "b": "x"},
